@@ -286,6 +286,9 @@ class ExprMixin:
             src = opt_val(src)
         if not isinstance(src.t, TList):
             raise OutOfSubset('comprehension over %s' % src.t, node)
+        if getattr(src, 'py', None) == 'emptylit':
+            yield st, self.list_literal([])
+            return
         n = list_len(src)
         # evaluate the element (and filters) at a symbolic index i
         i = z3.Int(fresh_name('lc'))
